@@ -422,6 +422,8 @@ def merge_runs(data: ArrayLike, digits: Optional[Integer] = None):
         epsilon = 10 ** (-digits)
 
     data = np.asanyarray(data)
+    if len(data) == 0:
+        return data
     mask = np.zeros(len(data), dtype=bool)
     mask[0] = True
     mask[1:] = np.abs(data[1:] - data[:-1]) > epsilon
@@ -763,6 +765,8 @@ def blocks(data, min_len=2, max_len=np.inf, wrap=False, digits=None, only_nonzer
       Indices referencing data
     """
     data = float_to_int(data, digits=digits)
+    if len(data) == 0:
+        return []
 
     # keep an integer range around so we can slice
     arange = np.arange(len(data))
@@ -836,6 +840,8 @@ def group_min(groups, data):
         Minimum value of data per group
 
     """
+    if len(groups) == 0:
+        return np.asanyarray(data)[:0]
     # sort with major key groups, minor key data
     order = np.lexsort((data, groups))
     groups = groups[order]  # this is only needed if groups is unsorted
